@@ -1,0 +1,40 @@
+//go:build verif
+
+// Verification hook for property C07 (run numbers): builds a bare Environment with an empty
+// workflow and asks it for a transition through the real TryTransition / FSM callbacks with a
+// transition body that does nothing. Add-only; not compiled without the "verif" tag.
+
+package environment
+
+import (
+	"github.com/AliceO2Group/Control/common/utils/uid"
+	"github.com/AliceO2Group/Control/core/workflow"
+)
+
+type verifC07Transition struct {
+	name string
+}
+
+func (t verifC07Transition) eventName() string     { return t.name }
+func (t verifC07Transition) check() error          { return nil }
+func (t verifC07Transition) do(*Environment) error { return nil }
+
+// VerifC07NewEnvironment creates an environment (real newEnvironment, hence the real FSM
+// callbacks) with an empty aggregator role as workflow, placed in the given state.
+func VerifC07NewEnvironment(state string) (*Environment, error) {
+	env, err := newEnvironment(map[string]string{}, uid.New())
+	if err != nil {
+		return nil, err
+	}
+	env.workflow = workflow.NewAggregatorRole("root", []workflow.Role{})
+	workflow.LinkChildrenToParents(env.workflow)
+	env.Sm.SetState(state)
+	return env, nil
+}
+
+// VerifC07TryTransition runs the named event through TryTransition and reports the error, the
+// state afterwards and the current run number afterwards.
+func VerifC07TryTransition(env *Environment, event string) (err error, state string, runNumber uint32) {
+	err = env.TryTransition(verifC07Transition{name: event})
+	return err, env.Sm.Current(), env.GetCurrentRunNumber()
+}
